@@ -276,7 +276,13 @@ def run_c10(tmp, tier, rnd):
         except BaseException as e:  # noqa
             fails.append((name.split("@")[0].split(":")[0] + ":scan-fails", f"cache fault {name}: {type(e).__name__}: {str(e)[:120]}", name))
             continue
-        if norm(got) != want:
+        try:
+            got_n = norm(got)
+        except Exception as e:  # noqa
+            fails.append((name.split("@")[0].split(":")[0] + ":invalid-cache-left-behind",
+                          f"cache fault {name}: the cache file after the scan is not a complete report document ({type(e).__name__})", name))
+            continue
+        if got_n != want:
             fails.append((name.split("@")[0].split(":")[0] + ":tainted-report", f"cache fault {name}: report differs from the fresh scan", name))
             continue
         # the scan must leave a complete, valid cache behind and the next scan must work from it
